@@ -254,7 +254,8 @@ int main(void) {
   for (size_t i = 0; i < VF_SIGMA.ntoks; i++) {
     rhead h;
     int r = ref_head(VF_SIGMA.toks[i].b, VF_SIGMA.toks[i].n, 0, &h);
-    CHECK((r == RH_OK && h.full == VF_SIGMA.toks[i].n) || (r == RH_BAD && VF_SIGMA.toks[i].n == 1), "token %zu of Sigma is not one complete head", i);
+    CHECK((r == RH_OK && h.full == VF_SIGMA.toks[i].n) || (r == RH_BAD && VF_SIGMA.toks[i].n == 1) || (r == RH_NEED && h.hl == VF_SIGMA.toks[i].n && h.hl == 9),
+          "token %zu of Sigma is neither one complete head, one reserved byte, nor a complete 9-byte header with an unsatisfiable payload", i);
     for (size_t j = 0; j < VF_SIGMA.ntoks; j++)
       if (i != j) CHECK(!(VF_SIGMA.toks[i].n == VF_SIGMA.toks[j].n && !memcmp(VF_SIGMA.toks[i].b, VF_SIGMA.toks[j].b, VF_SIGMA.toks[i].n)), "duplicate token");
   }
